@@ -1,7 +1,9 @@
 (* C10 TraceQL tree-level tie.  Reads the data file named by Cases.data_file (written by checks/c10tq.py), one item per line:
      T <id> <tree>            a SQL object tree of the real TraceQL planners (S-expression, see select_of / expr_of below)
      P <case id> <base id> <marker> <intended>
+     M <id> <mode> <ctx> <script>   a parsed request (AST of model/Traceql.v with the harness's library values), planned by C11's model
    and prints
+     m <id> E<n> | P | <pok>/<same>/<flat hex>/<pieces>      TraceqlPlan.plan script mode ctx 1: error class, panic, or the statement
      t <id> <pok 0|1>/<TqSql.render = flat pieces 0|1>/<flat hex>/<piece>,<piece>,...      <piece> = T<hex> | L<hex> | Q<hex>
      p <case id> <base id> <1 iff case tree = tq_marker_subst marker intended base tree (structural equality)>
    Atoms: decimal integers (any size), t / f, none, constructor names, strings as h<hex bytes>. *)
@@ -106,6 +108,40 @@ and select_of = function
          opt_of expr_of pw, opt_of expr_of wh, opt_of expr_of hv, list_of expr_of gb, list_of expr_of ob, opt_of expr_of lim)
   | _ -> fail_sx "select"
 
+let cmp_of = function
+  | A "CEq" -> CEq | A "CNeq" -> CNeq | A "CLt" -> CLt | A "CLe" -> CLe | A "CGt" -> CGt | A "CGe" -> CGe | A "CRe" -> CRe | A "CNre" -> CNre
+  | _ -> fail_sx "cmp"
+let andor_of = function A "AONone" -> AONone | A "AOAnd" -> AOAnd | A "AOOr" -> AOOr | _ -> fail_sx "andor"
+let aggfn_of = function A "AgCount" -> AgCount | A "AgSum" -> AgSum | A "AgMin" -> AgMin | A "AgMax" -> AgMax | A "AgAvg" -> AgAvg | _ -> fail_sx "aggfn"
+let value_of = function
+  | L [t; f; s; unq; ffmt; dur] -> { v_time = str_of t; v_f = str_of f; v_str = opt_of str_of s; v_unq = opt_of str_of unq;
+                                     v_ffmt = opt_of str_of ffmt; v_dur = opt_of z_of dur }
+  | _ -> fail_sx "value"
+let rec exp_of = function
+  | L [A "AExp"; h; ao; tl] -> AExp (head_of h, andor_of ao, opt_of exp_of tl)
+  | _ -> fail_sx "attr_exp"
+and head_of = function
+  | L [A "HTerm"; l; op; v] -> HTerm { a_label = str_of l; a_op = cmp_of op; a_val = value_of v }
+  | L [A "HParen"; e] -> HParen (exp_of e)
+  | _ -> fail_sx "attr_head"
+let agg_of = function
+  | L [fn; attr; c; num; meas; ffmt; durf] -> { g_fn = aggfn_of fn; g_attr = str_of attr; g_cmp = cmp_of c; g_num = str_of num; g_meas = str_of meas;
+                                                g_ffmt = opt_of str_of ffmt; g_durf = opt_of str_of durf }
+  | _ -> fail_sx "aggregator"
+let rec script_of = function
+  | L [A "Script"; attr; agg; ao; tl] -> Script ({ sel_attr = opt_of exp_of attr; sel_agg = opt_of agg_of agg }, andor_of ao, opt_of script_of tl)
+  | _ -> fail_sx "script"
+let ctx_of = function
+  | L [fr; to_; fd; td; ff; ft; lim; cl; rfm; rfi; cached; t1; t2; t3; t4; t5] ->
+    { from_ns = z_of fr; to_ns = z_of to_; from_date = str_of fd; to_date = str_of td; ffd_from = str_of ff; ffd_to = str_of ft;
+      limit = z_of lim; is_cluster = bool_of cl; rf_max = z_of rfm; rf_i = z_of rfi; cached = list_of str_of cached;
+      attrs_table = str_of t1; attrs_dist_table = str_of t2; traces_table = str_of t3; traces_dist_table = str_of t4; kv_dist_table = str_of t5 }
+  | _ -> fail_sx "ctx"
+let mode_of = function A "MSearch" -> MSearch | A "MTags" -> MTags | L [A "MValues"; k] -> MValues (str_of k) | _ -> fail_sx "mode"
+let perr_no = function
+  | EUnsupportedAttr -> 1 | EUnsupportedStmt -> 2 | ENotSupportedOp -> 3 | ENotTimeValue -> 4 | EBadDuration -> 5 | EBadNumber -> 6
+  | EUnquote -> 7 | EComplexNotSupported -> 8 | EEmptySelAgg -> 9 | EEmptySelOr -> 10 | EOrEmptySel -> 11 | EAggNoAttr -> 12
+
 let hex_of_chars (l : char list) : string =
   let b = Buffer.create 4096 in
   List.iter (fun c -> Buffer.add_string b (Printf.sprintf "%02x" (Char.code c))) l;
@@ -137,6 +173,26 @@ let () =
           | RTxt t -> print_char 'T'; print_string (hex_of_chars t)
           | RLit t -> print_char 'L'; print_string (hex_of_chars t)
           | RQid t -> print_char 'Q'; print_string (hex_of_chars t)) st.tq_ps;
+        print_newline ()
+      | L [A "M"; A id; md; cx; sc] ->
+        print_string "m "; print_string id; print_char ' ';
+        (match plan (script_of sc) (mode_of md) (ctx_of cx) (S O) with
+         | Err e -> print_string ("E" ^ string_of_int (perr_no e))
+         | Panic -> print_string "P"
+         | Ok t ->
+           let st = tq_stmt_of t in
+           print_string (if st.tq_ok then "1" else "0");
+           print_char '/';
+           print_string (if st.tq_render = st.tq_flat then "1" else "0");
+           print_char '/';
+           print_string (hex_of_chars st.tq_flat);
+           print_char '/';
+           List.iteri (fun i p ->
+             if i > 0 then print_char ',';
+             match p with
+             | RTxt t -> print_char 'T'; print_string (hex_of_chars t)
+             | RLit t -> print_char 'L'; print_string (hex_of_chars t)
+             | RQid t -> print_char 'Q'; print_string (hex_of_chars t)) st.tq_ps);
         print_newline ()
       | L [A "P"; A cid; A bid; marker; want] ->
         let cid = int_of_string cid and bid = int_of_string bid in
